@@ -144,7 +144,10 @@ func runC05ToStr(c *Ctx) {
 	}
 	c.Funcs[fnName(fn)] = true
 	// For each TypeAssert (commaOk) in the switch chain: find the formatting call dominated by its success edge.
-	type want struct{ callee string; base, bits int64 }
+	type want struct {
+		callee     string
+		base, bits int64
+	}
 	wants := map[string]want{
 		"int": {"strconv.Itoa", 0, 0}, "int8": {"strconv.Itoa", 0, 0}, "int16": {"strconv.Itoa", 0, 0}, "int32": {"strconv.Itoa", 0, 0},
 		"int64": {"strconv.FormatInt", 10, 0},
